@@ -1,7 +1,8 @@
 import Kaira.Proto
 import Kaira.BinChan
+import Kaira.Additive
 namespace Kaira.Verbs
-open Kaira Kaira.Proto Kaira.BinChan
+open Kaira Kaira.Proto Kaira.BinChan Kaira.Additive
 
 /-- C12 verbs: `bsc p xs us`, `bec p e xs us`, `zch p xs us` -/
 def cbin (toks : List String) : Option String :=
@@ -15,6 +16,39 @@ def cbin (toks : List String) : Option String :=
   | ["zch", p, xs, us] => do
     let p ← rat? p; let xs ← intList? xs; let us ← ratList? us
     some (showInts (zch p xs us))
+  | _ => none
+
+def kind? (s : String) : Option Kind :=
+  match s with
+  | "awgnReal" => some .awgnReal | "awgnComplex" => some .awgnComplex
+  | "lapScaleReal" => some .lapScaleReal | "lapScaleComplex" => some .lapScaleComplex
+  | "lapPowerReal" => some .lapPowerReal | "lapPowerComplex" => some .lapPowerComplex
+  | _ => none
+
+private def cpair? (s : String) : Option C :=
+  match s.splitOn "," with
+  | [a, b] => do let x ← rat? a; let y ← rat? b; some (x, y)
+  | _ => none
+private def clist? (s : String) : Option (List C) := if s = "-" then some [] else (s.splitOn ";").mapM cpair?
+private def showC (l : List C) : String :=
+  if l.isEmpty then "-" else ";".intercalate (l.map fun (a, b) => showRat a ++ "," ++ showRat b)
+
+/-- C07 / C13 verbs -/
+def canalog (toks : List String) : Option String :=
+  match toks with
+  | ["noise2", k, param, zs] => do
+    let k ← kind? k; let p ← rat? param; let zs ← ratList? zs
+    some (showRats (noiseSq (componentPower k p) zs))
+  | ["snrp", s, j] => do
+    let s ← rat? s; let j ← j.toInt?
+    some (showRat (snrPower s j))
+  | ["expand", t, l, h] => do
+    let t ← t.toNat?; let l ← l.toNat?; let h ← natList? h
+    if t = 0 then some "reject" else
+    some (showNats (expandBlocks t h l) ++ " " ++ toString (numBlocks t l))
+  | ["fade", h, x, n] => do
+    let h ← clist? h; let x ← clist? x; let n ← clist? n
+    some (showC (fadeGiven h x n))
   | _ => none
 
 end Kaira.Verbs
